@@ -394,7 +394,7 @@ func run(sc scenario) outcome {
 }
 
 // TestPropStutteringEndpoint: the rare, expensive behaviour on its own (one case costs the pause): an endpoint that stays
-// connected but reads nothing for 11-14 s under traffic far beyond every buffer, then resumes.  Same oracle as a healthy
+// connected but reads nothing for 3-14 s under traffic far beyond every buffer, then resumes.  Same oracle as a healthy
 // endpoint: bounded hand-off, sibling route unaffected, #handed = #received + slow_conn once the traffic has settled.
 func TestPropStutteringEndpoint(t *testing.T) {
 	rec := ev.Get("stuttering_endpoint")
@@ -405,9 +405,9 @@ func TestPropStutteringEndpoint(t *testing.T) {
 			connbuf:   rapid.SampledFrom([]int{0, 10, 1000}).Draw(t, "connbuf"),
 			iobuf:     rapid.SampledFrom([]int{256, 4096, 65536, 2000000}).Draw(t, "iobuf"),
 			flush:     time.Duration(rapid.SampledFrom([]int{1, 100, 1000}).Draw(t, "flushMs")) * time.Millisecond,
-			volume:    rapid.SampledFrom([]int{2, 8}).Draw(t, "volumeMB") << 20,
+			volume:    rapid.SampledFrom([]int{8, 24}).Draw(t, "volumeMB") << 20,
 			lineLen:   rapid.SampledFrom([]int{30, 70, 200}).Draw(t, "linelen"),
-			stutter:   time.Duration(rapid.SampledFrom([]int{11, 12, 14}).Draw(t, "stutterS")) * time.Second,
+			stutter:   time.Duration(rapid.SampledFrom([]int{3, 5, 7, 11, 12, 14}).Draw(t, "stutterS")) * time.Second,
 		}
 		o := run(sc)
 		if o.starved {
